@@ -44,6 +44,13 @@ def run(chk, prog):
     import ast as _ast
     # the recursive walker is found by its role (the nested function that calls itself); its first parameter is the node, further parameters are passed along
     walkers = [n for n in _ast.walk(ss) if isinstance(n, _ast.FunctionDef) and n is not ss and any(isinstance(x, _ast.Call) and isinstance(x.func, _ast.Name) and x.func.id == n.name for x in _ast.walk(n))]
+    if not walkers:
+        # the walker may also be a module-level recursive function that _shape_selection hands the map to
+        rec_ = lambda n: any(isinstance(x, _ast.Call) and isinstance(x.func, _ast.Name) and x.func.id == n.name for x in _ast.walk(n))
+        for nm_ in dict.fromkeys(x.func.id for x in _ast.walk(ss) if isinstance(x, _ast.Call) and isinstance(x.func, _ast.Name)):
+            g_ = next((n for n in m.tree.body if isinstance(n, _ast.FunctionDef) and n.name == nm_), None)
+            if g_ is not None and g_ is not ss and rec_(g_):
+                walkers.append(g_)
     if len(walkers) != 1 or not walkers[0].args.args:
         raise AnalysisError(f"_shape_selection: expected one recursive walker, found {len(walkers)}")
     loop = walkers[0]
